@@ -558,6 +558,18 @@ def _nonzero_shape(t, S, cons, depth=0):
         return "non-zero literal %d" % t[1]
     if t[0] == 'cast':
         return _nonzero_shape(t[2], S, cons, depth + 1)
+    if t[0] == 'var':
+        # a local assigned on several paths (if-expression): every definition must be non-zero by shape
+        defs = S.du.defs.get(t[1], [])
+        whys = []
+        for (bb, idx, node) in defs:
+            if idx == "t" or node.get("k") != "as" or node["p"].get("p"):
+                return None
+            w = _nonzero_shape(S.rvalue(node["rv"]), S, cons, depth + 1)
+            if not w:
+                return None
+            whys.append(w)
+        return ("every definition: " + "; ".join(sorted(set(whys)))) if whys else None
     if t[0] == 'un' and t[1] == 'Neg':
         return _nonzero_shape(t[2], S, cons, depth + 1)
     if t[0] == 'bin' and t[1] in ('Add', 'AddWithOverflow', 'AddUnchecked'):
